@@ -134,6 +134,74 @@ def run_docexamples(testdir):
     return n, failures, counters
 
 
+def run_layouts():
+    """Per-symbol model parameters given as numpy arrays: the words must depend on the VALUES, not on the memory
+    layout of the arrays (C order, Fortran order, transposed / strided / reversed views of numerically equal data)."""
+    failures, n = [], 0
+    counters = {"layout_comparisons": 0}
+    rng_tables = [
+        [[0.3, 0.1, 0.1, 0.3, 0.2], [0.1, 0.4, 0.2, 0.1, 0.2], [0.4, 0.2, 0.1, 0.2, 0.1]],
+        [[0.5, 0.5], [0.9, 0.1], [0.2, 0.8], [0.6, 0.4]],
+        [[0.25, 0.25, 0.5], [0.1, 0.2, 0.7]],
+    ]
+    for table in rng_tables:
+        for dtype in (np.float32, np.float64):
+            base = np.array(table, dtype=dtype)
+            nsym, k = base.shape
+            layouts = {
+                "C order": np.ascontiguousarray(base),
+                "Fortran order": np.asfortranarray(base),
+                "transposed view of the transposed copy": base.T.copy().T,
+                "every second column of a wider array": np.repeat(base, 2, axis=1)[:, ::2],
+                "rows reversed twice": base[::-1][::-1],
+            }
+            for msg in itertools.product(range(k), repeat=nsym):
+                syms = np.array(msg, dtype=np.int32)
+                for (lazy, perfect) in ((False, False), (False, True), (True, False)):
+                    fam = M.Categorical(lazy=lazy, perfect=perfect)
+                    ref = {}
+                    for lname, arr in layouts.items():
+                        n += 1
+                        counters["layout_comparisons"] += 1
+                        try:
+                            a = constriction.stream.stack.AnsCoder(); a.encode_reverse(syms, fam, arr); wa = a.get_compressed()
+                            r = constriction.stream.queue.RangeEncoder(); r.encode(syms, fam, arr); wr = r.get_compressed()
+                            back = constriction.stream.stack.AnsCoder(wa).decode(fam, arr)
+                        except (ValueError, TypeError):
+                            continue  # a layout the binding refuses cleanly (ValueError / TypeError) is fine
+                        except BaseException as e:
+                            failures.append({"what": "Python front end | per-symbol parameter arrays | exception for a valid parameter array", "detail": f"{lname} {dtype.__name__} table {table}: {type(e).__name__}: {e}"})
+                            continue
+                        cur = ([int(x) for x in wa], [int(x) for x in wr])
+                        if not np.array_equal(back, syms):
+                            failures.append({"what": "Python front end | per-symbol parameter arrays | round trip fails", "detail": f"{lname} {dtype.__name__} table {table} symbols {list(msg)}"})
+                        if not ref:
+                            ref = {"name": lname, "words": cur}
+                        elif cur != ref["words"]:
+                            failures.append({"what": "Python front end | per-symbol parameter arrays | compressed words depend on the memory layout of a numerically identical parameter array",
+                                             "detail": f"table {table} ({dtype.__name__}, lazy={lazy}, perfect={perfect}) symbols {list(msg)}: {ref['name']} gives {ref['words']}, {lname} gives {cur}"})
+                    if len(failures) > 30:
+                        return n, failures, counters
+    # 1-D per-symbol parameters (means / standard deviations) as strided and reversed views
+    gauss = M.QuantizedGaussian(-20, 20)
+    means = np.array([1.5, -3.25, 7.0, 0.1], dtype=np.float64)
+    stds = np.array([2.0, 0.5, 4.0, 1.0], dtype=np.float64)
+    syms = np.array([2, -3, 9, 0], dtype=np.int32)
+    views = {"contiguous": (means.copy(), stds.copy()), "stride 2": (np.repeat(means, 2)[::2], np.repeat(stds, 2)[::2]), "reversed twice": (means[::-1].copy()[::-1], stds[::-1].copy()[::-1])}
+    ref = None
+    for vname, (m, s_) in views.items():
+        n += 1
+        counters["layout_comparisons"] += 1
+        try:
+            a = constriction.stream.stack.AnsCoder(); a.encode_reverse(syms, gauss, m, s_); w = [int(x) for x in a.get_compressed()]
+        except (ValueError, TypeError):
+            continue
+        if ref is None: ref = (vname, w)
+        elif w != ref[1]:
+            failures.append({"what": "Python front end | per-symbol parameter arrays | compressed words depend on the memory layout of a numerically identical parameter array", "detail": f"QuantizedGaussian means/stds as {vname}: {w} vs {ref[0]}: {ref[1]}"})
+    return n, failures, counters
+
+
 ALPHABET = [0.0, 5e-324, 1e-300, 1e-10, 0.1, 1.0 / 3.0, 1.0, 7.7, 1e30, 1e308,
             -0.0, -1e-300, -0.5, float("nan"), float("inf"), float("-inf")]
 
@@ -203,6 +271,8 @@ def main():
         n, f, c = run_vectors(sys.argv[2])
     elif cmd == "docexamples":
         n, f, c = run_docexamples(sys.argv[2])
+    elif cmd == "layouts":
+        n, f, c = run_layouts()
     elif cmd == "constructors":
         n, f, c = run_constructors()
     else:
